@@ -8,7 +8,7 @@ CONSTANTS NR, NQ, RefCoords, QryCoords
 
 VARIABLES ref, qry
 AscSeqs(S, n) == {s \in [1..n -> S] : \A j \in 1..(n-1) : s[j] < s[j+1]}
-Init == \E rx \in AscSeqs(RefCoords, NR), qx \in AscSeqs(QryCoords, NQ), rv \in BOOLEAN, tailR \in {1, 57}, tailQ \in {0, 33} :
+Init == \E rx \in AscSeqs(RefCoords, NR), qx \in AscSeqs(QryCoords, NQ), rv \in BOOLEAN, tailR \in {1, 132}, tailQ \in {0, 33} :
           /\ ref = [id |-> 2, len |-> rx[NR] + tailR, x |-> rx]
           /\ qry = [id |-> 7, len |-> qx[NQ] + tailQ, x |-> qx]
           /\ \E m \in RowM!Matchings(NR, NQ, rv) : RowM!InitWith(m, rv)
